@@ -31,6 +31,12 @@ STREAMS = {
                           'cmd/thermal-recorder/zz_verif_parse.go': 'thermal-recorder/zz_verif_parse.go'}),
     'writer': dict(daemon='./cmd/thermal-writer', confirm=True, overlay={'cmd/thermal-writer/zz_verif_writer.go': 'thermal-writer/zz_verif_writer.go'}),
     'leptond': dict(daemon='./cmd/leptond', overlay={'cmd/leptond/zz_verif_leptond.go': 'leptond/zz_verif_leptond.go'}),
+    'leptondloop': dict(daemon='./cmd/leptond', overlay=dict(
+        [('cmd/leptond/zz_verif_leptondloop.go', 'leptondloop/zz_verif_leptondloop.go'),
+         ('cmd/leptond/service.go', 'leptondloop/service_fake.go'),
+         ('@mod:github.com/TheCacophonyProject/lepton3@/lepton3.go', 'leptondloop/lepton3_fake.go')] +
+        [('@mod:github.com/TheCacophonyProject/lepton3@/' + f, 'leptondloop/empty.go') for f in
+         ('big16.go', 'framebuilder.go', 'periphtypes.go', 'rawframe.go', 'ring.go', 'telemetry.go')])),
     'loglimiter': dict(pkg='./cmd/loglimiter', overlay={'loglimiter/zz_verif_loglimiter.go': 'loglimiter/zz_verif_loglimiter.go'}),
 }
 
@@ -110,8 +116,8 @@ PROPS = {
     ),
     'C12': dict(
         lean=['Props.C12', 'Props.C12Spec', 'Props.FactsProc'],
-        streams=['processor', 'fs'],
-        project={'fs': r'^< (ret|panic)'},
+        streams=['processor', 'fs', 'throttle'],
+        project={'fs': r'^< (ret|panic)', 'throttle': r'^$'},
         rule=PROC_RULE, trusted=PROC_TRUSTED,
         assumptions=PROC_ASSUME['C12'],
     ),
@@ -172,11 +178,11 @@ PROPS = {
     ),
     'C14': dict(
         lean=['Props.C14', 'Props.FactsWiring', 'Props.Pipeline'],
-        streams=['e2e', 'leptond'],
+        streams=['e2e', 'leptond', 'leptondloop'],
         rule=E2E_RULE + '; leptond stream: the real sendCameraSpecs of the camera daemon run on a lepton3.Lepton3 whose I2C command interface is a register-level fake (serials up to 2^63-1, '
              'both part numbers and unknown ones, firmware bytes 0..255, failing serial / firmware queries), sent over a unix socket and read with the real ReadHeaderInfo and with the Lean decoder',
         trusted=E2E_TRUSTED + ['yaml.v1 (camera header): the model uses a decoder for the image of the encoder on flat maps, validated against the real decoder',
-                               'leptond stream: fake CCI register file behind periph i2creg (the SPI frame path of leptond is not exercised; its marker / frame writes are covered by regenerated facts)'],
+                               'leptond stream: fake CCI register file behind periph i2creg', 'leptondloop stream: the real runMain/runCamera loop of cmd/leptond built against a scripted fake of the lepton3 package and a service object without D-Bus (build overlay); power cycling is skipped by an empty power pin'],
         assumptions=['frames do not begin with the bytes "clear" (indistinguishable from the marker in the wire format itself)', 'frame size >= 5'],
     ),
     'C11': dict(
